@@ -109,6 +109,7 @@ class Execution:
         self.fingerprints = set()
         self.threads = []
         self.aborted_threads = []
+        self.stuck = []
         self.vtime = 0.0
         self.preemptions = 0
         self.deviations = 0
@@ -344,6 +345,8 @@ class Scheduler:
             main.baton.release()
             if not self.finished.acquire(timeout=WATCHDOG * 6):
                 self._diagnose_hang()
+            # what every unfinished thread was blocked at when the execution ended
+            self.x.stuck = [(t.name, t.pending[0], str(t.pending[1]), t.subject) for t in self.threads if not t.done and t.pending]
             # unwind whatever is still parked
             self.aborting = True
             for t in self.threads:
@@ -809,9 +812,11 @@ def run_one(make_body, prefix, **kw):
     return s, x
 
 
-def explore(execute, bound, dev_bound=0, prefix=(), on_execution=None, max_executions=None, total_bound=None):
+def explore(execute, bound, dev_bound=0, prefix=(), on_execution=None, max_executions=None, total_bound=None, free_bound=None):
     """depth-first exploration with iterative context bounding (all executions with <= bound preemptions and
-    <= dev_bound environment deviations; total_bound, if given, additionally limits preemptions + deviations).
+    <= dev_bound environment deviations; total_bound, if given, additionally limits preemptions + deviations; free_bound, if given, limits the number of
+    non-default choices at points where the running thread is blocked - such a switch costs no preemption, and the
+    default there is the lowest thread id).
 
     execute(prefix) -> Execution (must replay `prefix` exactly, then take choice 0 everywhere)
     on_execution(x)   called for every complete execution (oracle)
@@ -829,32 +834,36 @@ def explore(execute, bound, dev_bound=0, prefix=(), on_execution=None, max_execu
             on_execution(x)
         if max_executions is not None and n >= max_executions:
             return n, True
-        pre = dev = 0
+        pre = dev = free = 0
         for i, p in enumerate(x.points):
             if i >= len(pfx):
                 for alt in range(1, p.enabled):
                     if p.kind == 'sched':
                         c = 1 if p.running_enabled else 0
-                        if pre + c <= bound and (total_bound is None or pre + c + dev <= total_bound):
+                        if pre + c <= bound and (total_bound is None or pre + c + dev <= total_bound) and \
+                                (c or free_bound is None or free + 1 <= free_bound):
                             stack.append(x.choices[:i] + [alt])
                     else:
                         if dev + 1 <= dev_bound and (total_bound is None or pre + dev + 1 <= total_bound):
                             stack.append(x.choices[:i] + [alt])
             if p.chosen:
                 if p.kind == 'sched':
-                    pre += 1 if p.running_enabled else 0
+                    if p.running_enabled:
+                        pre += 1
+                    else:
+                        free += 1
                 else:
                     dev += 1
     return n, False
 
 
-def first_level(x, bound, dev_bound):
+def first_level(x, bound, dev_bound, free_bound=None):
     """the prefixes branching off the root execution x (for distributing sub-trees over workers)"""
     res = []
     for i, p in enumerate(x.points):
         for alt in range(1, p.enabled):
             if p.kind == 'sched':
-                if (1 if p.running_enabled else 0) <= bound:
+                if (1 if p.running_enabled else 0) <= bound and (p.running_enabled or free_bound is None or free_bound >= 1):
                     res.append(x.choices[:i] + [alt])
             elif dev_bound >= 1:
                 res.append(x.choices[:i] + [alt])
